@@ -791,7 +791,8 @@ def extra_violations(ctx, stats):
     (context freed while held / never freed)."""
     import os
     import props.c04 as C4
-    exe = V.build_vsched_driver(ID, C4.C_DRIVER, C4.REPO_SOURCES, out_name="refcnt_driver")
+    exe = V.build_vsched_driver(ID, C4.C_DRIVER, C4.REPO_SOURCES, out_name="refcnt_driver",
+                                extra_c=[getattr(C4, "ATOMICS_C")] if hasattr(C4, "ATOMICS_C") else ())
     cases = [c for c in C4.generate(ctx.rng.fork("refcnt"), ctx.tier) if c.lines[0].startswith("refcnt")]
     res = V.run_batch(exe, cases, per_case_timeout=5.0)
     out = []
